@@ -149,9 +149,9 @@ _t('run', 'run -python -c `s:pass`')
 _t('run', 'run $ echo hello')
 _t('run', "run % `P:cat`\n-stdin `s:'abc'`")
 _t('run', 'run ( % `P:true` )')
-_t('timeout', 'timeout = `i:5`', minimal=True)
+_t('timeout', 'timeout = `i:60`', minimal=True)
 _t('timeout', 'timeout = none')
-_t('timeout', "timeout = `i:'2 + 3'`")
+_t('timeout', "timeout = `i:'20 + 40'`")
 _t('stdin', "stdin = `s:'abc'`", 'setup', minimal=True)
 _t('stdin', 'stdin = -contents-of `p:data.txt`', 'setup')
 _t('stdin', 'stdin = <<EOF\nsome text\nEOF', 'setup')
